@@ -220,7 +220,7 @@ prop('C12', level='other',
      units=[GF + 'compute_features_3d', GF + 'compute_features_2d', GF + '_proxy_3d', 'bycycle.group.utils.check_kwargs_shape'],
      jobs=['group_3d', 'kwargs_shape'],
      unit_jobs={GF + 'compute_features_3d': ['group_3d'], GF + '_proxy_3d': ['group_3d']},
-     no_input_kinds=('frame',),
+     no_input_kinds=('ensures', 'frame'),
      explanation='Proved for all extents (n0, n1), size-1 dimensions included: with axis=(0,1) the nested result has n0 rows and '
                  'entry [i][j] is CF(sigs[i][j], options at [i][j]) for a shared dict, None and a 2-D option list - through the '
                  'reshape contract (row-major), the callee contract of compute_features_2d and two nested loop invariants over the '
@@ -235,6 +235,7 @@ prop('C12', level='other',
 
 prop('C13', level='other', units=[DF + 'epoch_df', GF + 'compute_features_2d'], jobs=['epoch_df', 'group_epoched'],
      unit_jobs={DF + 'epoch_df': ['epoch_df'], GF + 'compute_features_2d': ['group_epoched']},
+     no_input_kinds=('ensures', 'frame'),
      explanation='Proved for an ARBITRARY epoch e and any number of epochs / rows (per-iteration postcondition of the loop in '
                  'epoch_df): the window is (e*L, (e+1)*L] on the closing side extremum; the table built for it consists of exactly '
                  'the cycles whose closing extremum lies in the window, in the original order, every value unchanged, every sample_* '
